@@ -172,3 +172,17 @@ Example C12_source_semantics_exhibits_hang :
 Proof.
   split; intros K H; vm_compute in H; inversion H; subst K; vm_compute; repeat split; reflexivity.
 Qed.
+
+(* ---- inventory of mutable state (DESIGN.md 2.3).  The models above are functions of their arguments; they are
+   faithful only as long as the code keeps no state between calls beyond what they mention.  The package-level
+   variables and struct fields in the scope of C12 (and which of them are written outside construction, from which
+   entry points) are regenerated from the current source on every run (harness/stategen -> Generated/StateInv.v)
+   and contain no state beyond the expected, reviewed inventory of Sys/StateInvSpec.v, where every piece of state
+   that legitimately exists names the model component that accounts for it.  Breaks when a written package-level
+   variable, a struct field, or a write of a field outside its constructor is added in scope (coqc then prints the
+   differences); tolerates moved declarations, reordered fields, renamed locals, new helpers / constants / tables
+   nothing writes. *)
+From Sdfx Require Sys.StateInvSpec Sys.StateInvC12.
+Theorem C12_state_inventory : Sdfx.Sys.StateInvSpec.state_ok_C12 = true.
+Proof. exact Sdfx.Sys.StateInvC12.C12_state_inventory. Qed.
+Print Assumptions C12_state_inventory.
